@@ -15,11 +15,14 @@ import (
 	"math/rand"
 	"os"
 	"path/filepath"
+	"reflect"
 	"sort"
 	"strconv"
 	"strings"
+	"sync"
 	"testing"
 	"time"
+	"unsafe"
 
 	gossipv1 "github.com/alephium/wormhole-fork/node/pkg/proto/gossip/v1"
 	ethcommon "github.com/ethereum/go-ethereum/common"
@@ -42,12 +45,34 @@ func c03CanonHb(h *gossipv1.Heartbeat) string {
 	return fmt.Sprintf("%s@%d", c03hex(b), h.Timestamp)
 }
 
+// c03internals finds the state's mutex and heartbeat table by their TYPES (not by field name, so that a rename does not break
+// the harness).
+func c03internals(gst *GuardianSetState) (*sync.Mutex, map[ethcommon.Address]map[peer.ID]*gossipv1.Heartbeat) {
+	v := reflect.ValueOf(gst).Elem()
+	var mu *sync.Mutex
+	var table map[ethcommon.Address]map[peer.ID]*gossipv1.Heartbeat
+	for i := 0; i < v.NumField(); i++ {
+		f := v.Field(i)
+		switch {
+		case f.Type() == reflect.TypeOf(sync.Mutex{}):
+			mu = (*sync.Mutex)(unsafe.Pointer(f.UnsafeAddr()))
+		case f.Type() == reflect.TypeOf(table):
+			table = *(*map[ethcommon.Address]map[peer.ID]*gossipv1.Heartbeat)(unsafe.Pointer(f.UnsafeAddr()))
+		}
+	}
+	if mu == nil || table == nil {
+		panic("verif: GuardianSetState no longer holds a sync.Mutex and a heartbeat table of the known type")
+	}
+	return mu, table
+}
+
 func c03Table(gst *GuardianSetState) string {
 	all := gst.GetAll()
 	// GetAll must be a faithful copy of the table itself
-	gst.mu.Lock()
-	same := len(all) == len(gst.lastHeartbeats)
-	for a, v := range gst.lastHeartbeats {
+	mu, table := c03internals(gst)
+	mu.Lock()
+	same := len(all) == len(table)
+	for a, v := range table {
 		if len(all[a]) != len(v) {
 			same = false
 		}
@@ -57,7 +82,7 @@ func c03Table(gst *GuardianSetState) string {
 			}
 		}
 	}
-	gst.mu.Unlock()
+	mu.Unlock()
 	if !same {
 		return "getall-differs-from-table"
 	}
